@@ -17,3 +17,27 @@ func HarnessT_C19_TransformArbitraryBytes5() {
 	_, _ = Transform(buf)
 	verifrt.Reach("answered")
 }
+
+// Harness_C19_TransformTruncated: every truncation of documents containing \u escapes (hex digits arbitrary bytes),
+// a surrogate pair, a number and literals, held in a buffer whose capacity equals its length (as decoders and
+// copies produce), is answered with output or an error.
+func Harness_C19_TransformTruncated() {
+	d := verifrt.AnyBytes("digits", 4)
+	var text []byte
+	switch verifrt.Choose("template", 4) {
+	case 0:
+		text = append(append([]byte(`["\u`), d...), []byte(`"]`)...)
+	case 1:
+		text = append(append([]byte(`{"k\u`), d...), []byte(`":-1.5e3}`)...)
+	case 2:
+		text = append(append([]byte(`["\ud83d\u`), d...), []byte(`",true]`)...)
+	default:
+		text = append(append([]byte(`{"a":[null,"\\`), d[:2]...), []byte(`"]}`)...)
+	}
+	cut := verifrt.Choose("cut", 24)
+	verifrt.Assume(cut <= len(text))
+	buf := make([]byte, cut)
+	copy(buf, text[:cut])
+	_, _ = Transform(buf)
+	verifrt.Reach("answered")
+}
